@@ -21,7 +21,13 @@ import (
 type Call struct {
 	Steps int   `json:"steps"` // user steps (visible effects) the function performs before returning
 	Res   []int `json:"res"`   // the tuple it returns (len = arity)
+	// "" = returns Res; "panic" / "goexit" = after its steps the function panics (the caller recovers and goes
+	// on with its next calls) / calls runtime.Goexit (the calling goroutine ends) instead of returning
+	Exit string `json:"exit,omitempty"`
 }
+
+// panicVal is what an aborting function panics with: the caller must observe exactly this value.
+type panicVal struct{ t, i int }
 
 type Case struct {
 	Arity  int      `json:"arity"`
@@ -131,7 +137,7 @@ func run(c *core.Ctx) {
 						for j := range res {
 							res[j] = 10*(t+1) + 3*i + j
 						}
-						progs[t] = append(progs[t], Call{steps * (1 - t), res})
+						progs[t] = append(progs[t], Call{Steps: steps * (1 - t), Res: res})
 					}
 				}
 				exec(c, Case{Arity: arity, Progs: progs, Gate: n == 2 && rep%2 == 1, Jitter: c.Rng.Uint64()})
@@ -162,6 +168,36 @@ func run(c *core.Ctx) {
 				}
 			}
 		}
+	}
+	// the aborting function is anybody's: after user steps, in a goroutine other than 0, with further calls
+	// of the same goroutine afterwards (recover, then Do again on the same Once), functions of second calls
+	for arity := 1; arity <= 3; arity++ {
+		for _, exit := range []string{"panic", "goexit"} {
+			for steps := 0; steps <= 2; steps++ {
+				res := func(k int) []int { return []int{k, k + 1, k + 2}[:arity] }
+				// one goroutine: the first function aborts, two more calls follow
+				exec(c, Case{Arity: arity, Progs: [][]Call{{{steps, res(1), exit}, {1, res(4), ""}, {0, res(7), exit}}}, Jitter: c.Rng.Uint64()})
+				// two goroutines, goroutine 1 is alone at first (goroutine 0 is a late caller) and its function aborts
+				exec(c, Case{Arity: arity, Progs: [][]Call{{{0, res(1), ""}, {0, res(2), ""}}, {{steps, res(4), exit}, {0, res(7), ""}}}, Late: 0, Gate: steps == 1, Jitter: c.Rng.Uint64()})
+			}
+		}
+	}
+	for i := c.N(400, 5000, 2500); i > 0; i-- {
+		arity := 1 + c.Rng.Intn(3)
+		n := 1 + c.Rng.Intn(8)
+		progs := mkProgs(c.Rng, arity, n, 3, 3, c.Rng.Chance(60))
+		for t := range progs {
+			for k := range progs[t] {
+				if c.Rng.Chance(45) {
+					progs[t][k].Exit = []string{"panic", "goexit"}[c.Rng.Intn(2)]
+				}
+			}
+		}
+		late := 0
+		if c.Rng.Chance(30) {
+			late = c.Rng.Intn(n)
+		}
+		exec(c, Case{Arity: arity, Progs: progs, Gate: c.Rng.Chance(15), Late: late, Jitter: c.Rng.Uint64()})
 	}
 	// oracle-heavy stream: many goroutines / many calls per goroutine (model-sampled: only the small ones go to Coq)
 	sizes := []int{15, 16, 17, 31, 32, 33, 63, 64, 65, 127, 128, 129, 255, 256, 257, 1023, 1024, 1025, 2047, 2048, 2049, 4095, 4096, 4097}
@@ -205,6 +241,11 @@ func run(c *core.Ctx) {
 
 // hang is how long a scenario may take before it is reported as blocked; after 3 such reports the run
 // stops executing scenarios (a deadlocking implementation would otherwise take for ever).
+// hangFor scales the limit with the number of goroutines (a loaded machine schedules thousands of them slowly).
+func hangFor(goroutines int) time.Duration {
+	return hang + time.Duration(goroutines)*5*time.Millisecond
+}
+
 var (
 	hang       = 10 * time.Second
 	hangs      int32
@@ -268,13 +309,44 @@ func exec(c *core.Ctx, cs Case) {
 				<-gate
 			}
 			marker = 1000*(t+1) + i + 1
+			switch call.Exit {
+			case "panic":
+				panic(panicVal{t, i})
+			case "goexit":
+				runtime.Goexit()
+			}
 			return append([]int{}, call.Res...)
 		}
 	}
 	var wg sync.WaitGroup
 	var ready int32
+	abortedAt := make([]int, n) // index of the call of goroutine t whose function panicked (-1: none)
+	goexitAt := make([]int, n)  // index of the call during which goroutine t ended through Goexit (-1: none)
+	for t := range abortedAt {
+		abortedAt[t], goexitAt[t] = -1, -1
+	}
+	var badPanic atomic.Value // a panic value other than the function's own reached a caller
+	// doCall makes one call; ok = false when the call did not return (its function panicked; recovered here)
+	doCall := func(t, i int, call Call) (r []int, ok bool) {
+		defer func() {
+			if p := recover(); p != nil {
+				if pv, is := p.(panicVal); !is || pv != (panicVal{t, i}) {
+					badPanic.Store(fmt.Sprintf("goroutine %d call %d recovered %v, want the function's own panic value %v", t, i, p, panicVal{t, i}))
+				}
+				abortedAt[t] = i
+			}
+		}()
+		r = d.Do(mkf(t, i, call))
+		return r, true
+	}
 	worker := func(t int, group int) {
 		defer wg.Done()
+		cur := -1
+		defer func() {
+			if cur >= 0 {
+				goexitAt[t] = cur // the goroutine is ending inside call cur without a panic: Goexit
+			}
+		}()
 		jr := core.NewRand(cs.Jitter + uint64(t)*7919)
 		// release the goroutines of a group at the same instant (spin, so that they really run in parallel)
 		atomic.AddInt32(&ready, 1)
@@ -287,7 +359,12 @@ func exec(c *core.Ctx, cs Case) {
 			for y := jr.Intn(4); y > 0 && cs.Jitter%2 == 1; y-- {
 				runtime.Gosched()
 			}
-			r := d.Do(mkf(t, i, call))
+			cur = i
+			r, ok := doCall(t, i, call)
+			cur = -1
+			if !ok {
+				continue // recovered: go on with the next call on the same Once
+			}
 			m := marker
 			atomic.AddInt64(&returned, 1)
 			rets[t] = append(rets[t], r)
@@ -300,7 +377,7 @@ func exec(c *core.Ctx, cs Case) {
 		select {
 		case <-done:
 			return true
-		case <-time.After(hang):
+		case <-time.After(hangFor(n)):
 			atomic.AddInt32(&hangs, 1)
 			return false
 		}
@@ -322,16 +399,16 @@ func exec(c *core.Ctx, cs Case) {
 				runtime.Gosched()
 			}
 			early = atomic.LoadInt64(&returned)
-		case <-time.After(hang):
+		case <-time.After(hangFor(n)):
 			atomic.AddInt32(&hangs, 1)
 			hung = true
-			c.Fail("no function was invoked", "goroutines called Do but none of the functions ran within 3s")
+			c.Fail("no function was invoked", fmt.Sprintf("goroutines called Do but none of the functions ran within %v", hangFor(n)))
 		}
 		close(gate)
 	}
 	if !waitAll() {
 		hung = true
-		c.Fail("Do did not return", fmt.Sprintf("%d of the calls had returned after 3s", atomic.LoadInt64(&returned)))
+		c.Fail("Do did not return", fmt.Sprintf("%d of the calls had returned after %v", atomic.LoadInt64(&returned), hangFor(n)))
 	}
 	if !hung && cs.Late > 0 {
 		wg.Add(cs.Late)
@@ -364,29 +441,64 @@ func exec(c *core.Ctx, cs Case) {
 			c.Count("winner_is_another_goroutine")
 		}
 	}
+	if msg := badPanic.Load(); msg != nil {
+		c.Fail("the panic value of the function did not reach the caller of Do unchanged", msg.(string))
+	}
 	if len(ranCopy) >= 1 {
 		w := ranCopy[0]
 		win := cs.Progs[w[0]][w[1]]
+		want := win.Res
+		if win.Exit != "" {
+			c.Count("invoked_function_exits_by_" + win.Exit)
+			want = make([]int, cs.Arity) // the Once is consumed, nothing was assigned
+			if w[0] != 0 {
+				c.Count("aborting_function_of_a_goroutine_other_than_0")
+			}
+			if win.Steps > 0 {
+				c.Count("aborting_function_after_user_steps")
+			}
+			if win.Exit == "panic" && len(cs.Progs[w[0]]) > w[1]+1 {
+				c.Count("recover_then_Do_again")
+			}
+		}
 		wantMarker := 1000*(w[0]+1) + w[1] + 1
 		for t := range rets {
-			if len(rets[t]) != len(cs.Progs[t]) {
-				c.Fail("missing results", fmt.Sprintf("goroutine %d", t))
+			wantN := len(cs.Progs[t])
+			if goexitAt[t] >= 0 {
+				wantN = goexitAt[t]
+			} else if abortedAt[t] >= 0 {
+				wantN--
+			}
+			if len(rets[t]) != wantN {
+				c.Fail("missing results", fmt.Sprintf("goroutine %d returned from %d calls, want %d", t, len(rets[t]), wantN))
 			}
 			for i, r := range rets[t] {
-				if !core.Eq(r, win.Res) {
+				if !core.Eq(r, want) {
 					c.Fail("Do returned values other than those of the invocation",
-						fmt.Sprintf("goroutine %d call %d got %v, invocation (goroutine %d call %d) returned %v", t, i, r, w[0], w[1], win.Res))
+						fmt.Sprintf("goroutine %d return %d got %v, invocation (goroutine %d call %d, exit %q) gives %v", t, i, r, w[0], w[1], win.Exit, want))
 				}
 				if len(ranCopy) == 1 && seen[t][i] != wantMarker {
 					c.Fail("effects of the invocation not visible after Do returned",
-						fmt.Sprintf("goroutine %d call %d read marker %d, want %d", t, i, seen[t][i], wantMarker))
+						fmt.Sprintf("goroutine %d return %d read marker %d, want %d", t, i, seen[t][i], wantMarker))
 				}
 			}
+			if len(ranCopy) == 1 && (abortedAt[t] >= 0 || goexitAt[t] >= 0) {
+				at := abortedAt[t]
+				if at < 0 {
+					at = goexitAt[t]
+				}
+				if t != w[0] || at != w[1] || win.Exit == "" {
+					c.Fail("a Do call did not return although its function was not the aborting invocation", fmt.Sprintf("goroutine %d call %d", t, at))
+				}
+			}
+		}
+		if len(ranCopy) == 1 && win.Exit != "" && abortedAt[w[0]] != w[1] && goexitAt[w[0]] != w[1] {
+			c.Fail("Do returned although its function did not", fmt.Sprintf("goroutine %d call %d exits by %s", w[0], w[1], win.Exit))
 		}
 		if len(ranCopy) == 1 && int(atomic.LoadInt64(&effects)) != win.Steps {
 			c.Fail("user steps executed differ from those of the single invocation", fmt.Sprintf("%d vs %d", effects, win.Steps))
 		}
-		if !core.Eq(d.Fields(), win.Res) {
+		if !core.Eq(d.Fields(), want) {
 			c.Fail("fields R1.. differ from the invocation's results", fmt.Sprint(d.Fields()))
 		}
 	}
@@ -396,21 +508,44 @@ func exec(c *core.Ctx, cs Case) {
 		c.Count("oracle_only_large")
 		return
 	}
-	progs := make([]string, n)
+	// In the model an aborting caller makes no further calls; a goroutine that recovered the panic and went
+	// on is the same as another goroutine arriving later: its remaining calls become an extra thread.
+	term := func(call Call) string {
+		return "(" + core.Z(call.Steps) + "," + core.ZList(call.Res) + "," + core.Bool(call.Exit != "") + ")"
+	}
+	var progs, rt []string
+	var contProg, contRets string
 	for t, p := range cs.Progs {
-		calls := make([]string, len(p))
-		for i, call := range p {
-			calls[i] = "(" + core.Z(call.Steps) + "," + core.ZList(call.Res) + ",false)"
+		cut := len(p)
+		if abortedAt[t] >= 0 {
+			cut = abortedAt[t] + 1
 		}
-		progs[t] = core.List(calls)
+		calls := make([]string, 0, cut)
+		for _, call := range p[:cut] {
+			calls = append(calls, term(call))
+		}
+		progs = append(progs, core.List(calls))
+		if abortedAt[t] >= 0 {
+			k := abortedAt[t] // results before the aborted call stay with t, those after it go to the extra thread
+			if k > len(rets[t]) {
+				k = len(rets[t])
+			}
+			rt = append(rt, core.ZListList(rets[t][:k]))
+			var rest []string
+			for _, call := range p[cut:] {
+				rest = append(rest, term(call))
+			}
+			contProg, contRets = core.List(rest), core.ZListList(rets[t][k:])
+		} else {
+			rt = append(rt, core.ZListList(rets[t]))
+		}
+	}
+	if contProg != "" {
+		progs, rt = append(progs, contProg), append(rt, contRets)
 	}
 	rs := make([]string, len(ranCopy))
 	for i, w := range ranCopy {
 		rs[i] = core.Pair(core.Z(w[0]), core.Z(w[1]))
-	}
-	rt := make([]string, n)
-	for t := range rets {
-		rt[t] = core.ZListList(rets[t])
 	}
 	c.Emit(strings.Join([]string{"Case", core.Z(cs.Arity), core.List(progs), core.List(rs), core.List(rt), core.Z(int(early))}, " "))
 }
@@ -418,7 +553,7 @@ func exec(c *core.Ctx, cs Case) {
 // execExit: goroutine 0's function is the first to be invoked and leaves through cs.Exit. Whatever the
 // exit, the Once is consumed: no other function may ever be invoked (with the real sync.Once the other
 // calls return the fields as they are: the results on a normal return, zero values otherwise).
-// These scenarios are checked by the oracle only: the Coq model has no "function does not return" step.
+// Scenarios with at most 33 goroutines are also replayed on the Coq model (whose functions may abort).
 func execExit(c *core.Ctx, cs Case) {
 	c.Count("exit_" + cs.Exit)
 	c.Count(fmt.Sprintf("arity_%d", cs.Arity))
@@ -446,9 +581,14 @@ func execExit(c *core.Ctx, cs Case) {
 	}
 	var ret0 []int // what the first caller's own Do returned (stays nil when it left by panic / Goexit)
 	var returnedEarly int64
+	gotPanic := "" // a panic value other than the function's own
 	go func() {
 		defer close(done0)
-		defer func() { recover() }()
+		defer func() {
+			if p := recover(); p != nil && p != any("c17: the action panics") {
+				gotPanic = fmt.Sprint(p)
+			}
+		}()
 		ret0 = d.Do(func() []int {
 			note(0)
 			close(entered)
@@ -464,7 +604,7 @@ func execExit(c *core.Ctx, cs Case) {
 	}()
 	select {
 	case <-entered:
-	case <-time.After(hang):
+	case <-time.After(hangFor(cs.Waiters + cs.Later + 1)):
 		atomic.AddInt32(&hangs, 1)
 		c.Fail("no function was invoked", "exit scenario")
 		close(gate)
@@ -490,7 +630,7 @@ func execExit(c *core.Ctx, cs Case) {
 		select {
 		case <-ch:
 			return true
-		case <-time.After(hang):
+		case <-time.After(hangFor(cs.Waiters + cs.Later + 1)):
 			atomic.AddInt32(&hangs, 1)
 			return false
 		}
@@ -507,7 +647,7 @@ func execExit(c *core.Ctx, cs Case) {
 	close(gate)
 	select {
 	case <-done0:
-	case <-time.After(hang):
+	case <-time.After(hangFor(cs.Waiters + cs.Later + 1)):
 		atomic.AddInt32(&hangs, 1)
 		c.Fail("Do did not return", "first caller")
 		return
@@ -546,6 +686,9 @@ func execExit(c *core.Ctx, cs Case) {
 	}
 	if cs.Exit == "return" && !core.Eq(ret0, res0) {
 		c.Fail("Do returned values other than those of the invocation", fmt.Sprintf("the first caller itself got %v, want %v", ret0, res0))
+	}
+	if gotPanic != "" {
+		c.Fail("the panic value of the function did not reach the caller of Do unchanged", gotPanic)
 	}
 	if cs.Exit != "return" && ret0 != nil {
 		c.Fail("Do returned although its function did not", fmt.Sprintf("exit %s, got %v", cs.Exit, ret0))
